@@ -283,7 +283,7 @@ CONFIG["C07"] = {
                     "the factory path on a sample)"],
 }
 CONFIG["C08"] = {
-    "level": "other", "proof": True, "rtc": True, "rtc_timeout": 3000,
+    "level": "other", "proof": True, "rtc": True, "rtc_timeout": 3000, "lean": ["lemmas/C08Prefix.lean"], "lean_quick": True,
     "explanation": "Proved (effect obligations decided on the AST of the real files, for every N and every history): each call that "
                    "draws from numpy's global generator inside a method of the grid / polytope / Voronoi classes is dominated in the "
                    "same function by np.random.seed(<integer literal>), and every seed is an integer literal (code deferred in a lambda, a "
@@ -303,11 +303,12 @@ CONFIG["C08"] = {
                      "plotting-only class, not reachable from the geometry getters"],
     "assumptions": ["determinism of Qhull/LAPACK/CPython floats across processes is exercised by the bounded stage, not proved",
                     "the idempotent in-place filter of HalfRotobjVoronoi._additional_points_per_cell (DESIGN 6/C08 P4) and the per-getter effect "
-                    "summaries (P5) are covered by the bounded stage only; that a strictly increasing index order over indices 0..n-1 puts index k "
-                    "in row k is the pigeonhole step, not discharged by the SMT solver (the bounded prefix comparison covers it)"],
+                    "summaries (P5) are covered by the bounded stage only; the two counting steps of the prefix claim -- the index counter equals the node "
+                    "count, and a strictly increasing index order over indices 0..n-1 puts index k in row k -- are proved in Lean 4 / Mathlib "
+                    "(lemmas/C08Prefix.lean, checked on every run) over abstract functions whose hypotheses are the SMT-proved post-conditions"],
 }
 CONFIG["C18"] = {
-    "level": "other", "proof": True, "rtc": True, "rtc_timeout": 3000,
+    "level": "other", "proof": True, "rtc": True, "rtc_timeout": 3000, "lean": ["lemmas/C08Prefix.lean"], "lean_quick": True,
     "explanation": "Proved on the real code over an abstract graph (symbolic number of nodes, any shuffle permutation): "
                    "Polytope._end_of_divison keeps the index of every node of an earlier level (permanence) and gives the nodes of the "
                    "current level exactly the indices C..C+K-1, each once (range, injective, onto with witness), advances counter / level "
